@@ -14,6 +14,8 @@ Bind: spec -> code  every edge of the dumped state graph (= every (bytes buffere
 import copy
 import itertools
 import os
+import re
+import time
 
 from harness import tlc
 
@@ -70,6 +72,14 @@ def _report(ctx, frames, reads, d, direction):
 def run(ctx):
     from harness.replay import framing as rf
     h = rf.FramingHarness()
+    t0 = time.time()
+    phases = {}
+
+    def phase(name):
+        nonlocal t0
+        phases[name] = round(phases.get(name, 0) + time.time() - t0, 1)
+        t0 = time.time()
+        ctx.note("phase_wall_s", dict(phases))
     replayed = 0
     feeds = 0
     graphs = []
@@ -77,7 +87,7 @@ def run(ctx):
     # ------------------------------------------------------------------ TLC, exhaustive, with state graphs
     if ctx.quick:
         models = [("1-2 frames, v1-v4, resp 0/4, push 28", _consts((1, 2, 3, 4), (0, 4), (28,), 1, 2)),
-                  ("3 frames, v2/v3, resp 0/4, push 28", _consts((2, 3), (0, 4), (28,), 3, 3))]
+                  ("3 frames, v2/v3, resp 4, push 28", _consts((2, 3), (4,), (28,), 3, 3))]
     else:
         models = [("1-2 frames, v1-v4, resp 0/4/8, push 28/30", _consts((1, 2, 3, 4), (0, 4, 8), (28, 30), 1, 2)),
                   ("3 frames, v1/v4, resp 0/4, push 28", _consts((1, 4), (0, 4), (28,), 3, 3)),
@@ -94,12 +104,14 @@ def run(ctx):
         if not cov.get("Next") or cov["Next"][1] == 0:
             raise tlc.MachineryError("Read never taken in model %s: %s" % (label, cov))
         graphs.append((label, consts, nodes, edges, init))
-    for w in WITNESSES:
-        wcfg = tlc.write_cfg(os.path.join(ctx.scratch, w + ".cfg"), constants=models[0][1], invariants=[w], deadlock=False)
-        wres = tlc.check_model("Framing", wcfg, ctx.scratch, timeout=600)
-        if wres.invariant != w:
-            raise tlc.MachineryError("vacuity witness %s not reachable" % w)
+    wconsts = _consts((2, 3), (0, 4), (28,), 1, 2)
+    wcfg = tlc.write_cfg(os.path.join(ctx.scratch, "witness.cfg"), constants=wconsts, invariants=WITNESSES, deadlock=False)
+    wres = tlc.run_tlc("Framing", wcfg, ctx.scratch, timeout=600, extra=("-continue",))
+    reached = set(re.findall(r"Invariant (\w+) is violated", wres.out))
+    if reached != set(WITNESSES):
+        raise tlc.MachineryError("vacuity witnesses not reachable: %s" % sorted(set(WITNESSES) - reached))
     ctx.note("vacuity_witnesses_reached", len(WITNESSES))
+    phase("tlc_exhaustive")
 
     if not ctx.quick:
         big = _consts((1, 2, 3, 4), (0, 4), (28,), 3, 3)
@@ -171,6 +183,7 @@ def run(ctx):
     if multi == 0:
         raise tlc.MachineryError("no read delivering two frames at once in the replayed walks")
     ctx.note("behaviours_replayed_graph", replayed)
+    phase("replay_graph")
 
     # ------------------------------------------------------------------ spec -> code: all 2^(L-1) splits of short sequences
     max_l = 13 if ctx.quick else 14
@@ -210,6 +223,7 @@ def run(ctx):
     replayed += all_split_paths
     ctx.note("all_splits_sequences", all_split_seqs)
     ctx.note("all_splits_paths", all_split_paths)
+    phase("replay_all_splits")
 
     # ------------------------------------------------------------------ thorough: simulated behaviours with 4 frames / long bodies
     if not ctx.quick and ctx.violations < 25:
@@ -234,13 +248,14 @@ def run(ctx):
         ctx.note("simulated_behaviours_replayed", nb)
         if nb == 0:
             raise tlc.MachineryError("TLC -simulate produced no behaviour")
+    phase("tlc_big_and_simulation")
     ctx.traces_validated += replayed
     ctx.note("behaviours_replayed", replayed)
     ctx.note("reads_replayed", feeds)
     ctx.note("connections_opened", h.opened)
 
     # ------------------------------------------------------------------ code -> spec: recorded runs validated by TLC
-    n_tr = 300 if ctx.quick else 2500
+    n_tr = 200 if ctx.quick else 2500
     max_frames = 5 if ctx.quick else 6
     pos_lens = [0, 4, 7, 8, 60, 300] + ([] if ctx.quick else [1500])
     neg_lens = [28, 30, 36, 40]
@@ -261,6 +276,7 @@ def run(ctx):
                          invariants=INVARIANTS, constraints=["Progress"], postcondition="Done", deadlock=False)
     tres, prog = tlc.validate_traces("Trace_Framing", tcfg, traces, ctx.scratch, timeout=1800)
     ctx.add_tlc(tres, "trace validation")
+    phase("trace_validation")
     if tres.violation:
         ctx.violation("invariant %s violated in a state of a recorded execution" % tres.invariant,
                       replay={"kind": "spec", "trace": [dict(s) for _, s in tres.trace()][-3:]},
